@@ -45,6 +45,7 @@
 #include "utest_router.hpp"
 #include "utest_classes.hpp"
 #include <map>
+#include <set>
 #include <memory>
 #include <mutex>
 #include <sys/stat.h>
@@ -187,6 +188,8 @@ protected:
 	Persister *_per = nullptr;
 	std::string _dir;                              // directory of the file persister (per case)
 	std::map<unsigned, std::string> _snap;         // last STORE snapshot
+	std::set<unsigned> _cand;                      // sequence numbers that may have been used as store keys
+	unsigned _ns_before = 0;                       // next_send before the current operation
 	std::string _tmp_root;
 	unsigned long _case_no = 0;
 
@@ -212,6 +215,7 @@ public:
 	{
 		++_case_no;
 		_snap.clear();
+		_cand.clear();
 		_dir.clear();
 		vclock_set(VCLOCK_T0);
 		std::string result;
@@ -222,6 +226,7 @@ public:
 			for (const auto& t : split(ops[i], ' ')) if (!t.empty()) toks.push_back(t);
 			if (i) result += " | ";
 			if (toks.empty()) { result += "EMPTY"; continue; }
+			_ns_before = _ss ? _ss->next_send() : 0;
 			try
 			{
 				run_op(toks);
@@ -455,13 +460,27 @@ protected:
 			os << ";CTRL -";
 		if (per)
 		{
+			// Persister::put is always keyed by _next_send_seq: the keys used during this operation lie between
+			// the values next_send had before and after it (it moves by increments, or by one jump when numbers
+			// are recovered / re-based).  Persister offers no key enumeration and get_last_seqnum can be 2^31,
+			// so only these candidates (and all earlier ones) are read back.
 			std::map<unsigned, std::string> now;
 			unsigned last(0);
 			per->get_last_seqnum(last);
-			for (unsigned s(1); s <= last; ++s)
+			const unsigned a(_ns_before), b(_ss->next_send());
+			unsigned lo(a < b ? a : b), hi(a < b ? b : a);
+			if (lo == 0) lo = hi > 64 ? hi - 64 : 1;
+			if (hi - lo > 4096)
+			{
+				for (unsigned k(lo); k <= lo + 64; ++k) _cand.insert(k);
+				lo = hi - 64;
+			}
+			for (unsigned k(lo); k <= hi; ++k) _cand.insert(k);
+			if (last) _cand.insert(last);
+			for (const unsigned s : _cand)
 			{
 				f8String v;
-				if (per->get(s, v))
+				if (s && per->get(s, v))
 					now[s] = v;
 			}
 			std::string d;
